@@ -1079,7 +1079,8 @@ package apd
 //@   ensures [neg] old(!isnan(x) && x.Negative && !iszero(x) && mod(factor, 2) == 0) ==> (d.Form == NaN && ret1 == InvalidOperation)
 //@   ensures [infneg] old(x.Form == Infinite && x.Negative) ==> (d.Form == NaN && ret1 == InvalidOperation)
 //@   ensures [inf] old(x.Form == Infinite && !x.Negative) ==> (d.Form == Infinite && !d.Negative && ret1 == 0)
-//@   ensures [zero] old(iszero(x)) ==> (d.Form == Finite && val(d.Coeff) == 0 && d.Negative == old(x.Negative) && ret1 == 0)
+//@   ensures [zero] wfctx(c) && old(iszero(x)) ==> Rounded(c, old(x.Negative), 0, tdiv(old(x.Exponent), factor), d, ret1)
+//@   ensures [fits] wfctx(c) && ret0 && !hassys(ret1) ==> fits(c, d)
 //@   ensures [unchanged] !ret0 ==> (unchanged(d) && ret1 == 0 && ret2 == nil)
 
 //@ func (*Context).logSpecials
